@@ -6,14 +6,15 @@ from . import states
 from .mainloop import MainLoop
 from .c02 import soft_threshold_merged
 
-SCALAR_TAGS = ['float', 'int', 'np.float64', 'np.float32', 'np.int64']
-MORE_TAGS = ['np.float16', 'np.int32']
+SCALAR_TAGS = ['float', 'int', 'np.float64', 'np.float32', 'np.int64', 'np.uint8']
+INT_TAGS = ('int', 'np.int64', 'np.int32', 'np.uint8', 'np.uint16', 'np.uint32', 'np.uint64')
+MORE_TAGS = ['np.float16', 'np.int32', 'np.uint16', 'np.uint64']
 
 
 def tagged(c, name, tag, lo=0):
     """A non-negative hyper-parameter value of the given type form.  Integer
     forms carry an integer value (the same numeric value is used for all forms)."""
-    if tag in ('int', 'np.int64', 'np.int32'):
+    if tag in INT_TAGS:
         v = c.int(name, lo, 5)
         return core.SymInt(v.e, tag), core.SymReal(z3.ToReal(v.e), 'float')
     v = c.real(name, lo, 5)
